@@ -499,14 +499,18 @@ Theorem C09_inv_DeallocateIf : forall C, 1 <= C -> forall uc p f w,
 Proof. exact PoolCompl.DeallocateIf_JC. Qed.
 Print Assumptions C09_inv_DeallocateIf.
 
-(* partial form of "DeallocateIf frees exactly the selected blocks": after every history, the blocks still live after a
-   DeallocateIf were live before.  NOT yet proved: that every live block the filter selects is freed and every other live block
-   stays (the traversal covers all owned buffers) - see NOTES.md. *)
-Theorem C09_deallocate_if_only_live_partial : forall C, 1 <= C -> forall CF uc ops p f,
-  let w := PoolCompl.frun C CF uc ops in
-  forall bk, In bk (PoolConc.live (PoolConc.getp (PoolConc.DeallocateIf C uc w p f) p)) -> In bk (PoolConc.live (PoolConc.getp w p)).
-Proof. exact PoolCompl.DeallocateIf_only_live. Qed.
-Print Assumptions C09_deallocate_if_only_live_partial.
+(* C09_deallocate_if_frees_exactly_selected: in every state satisfying the invariant with completeness (hence after every
+   history over the full alphabet, C09_inv_all_histories_full), DeallocateIf with an ARBITRARY filter f leaves live in that pool
+   exactly the previously live blocks with f = false - every selected live block is freed, every other live block stays -,
+   leaves the other pool's live blocks untouched, and the counter equals the new number of live blocks. *)
+Theorem C09_deallocate_if_frees_exactly_selected : forall C, 1 <= C -> forall uc p f w,
+  (uc = false -> PoolConc.cache (PoolConc.getp w p) = []) -> PoolCompl.JC C p None w ->
+  let w' := PoolConc.DeallocateIf C uc w p f in
+  (forall bk, In bk (PoolConc.live (PoolConc.getp w' p)) <-> In bk (PoolConc.live (PoolConc.getp w p)) /\ f bk = false) /\
+  PoolConc.live (PoolConc.getp w' (negb p)) = PoolConc.live (PoolConc.getp w (negb p)) /\
+  PoolConc.acount (PoolConc.getp w' p) = PoolConc.lenz (PoolConc.live (PoolConc.getp w' p)).
+Proof. exact PoolCompl.DeallocateIf_exact. Qed.
+Print Assumptions C09_deallocate_if_frees_exactly_selected.
 
 (* blockCount = 1, address level: two different blocks of single-block pools (two manager allocations that do not overlap) are
    aligned, inside their manager blocks and disjoint, for every alignment 1..1024 and all 16-aligned manager addresses.  The
@@ -521,3 +525,25 @@ Theorem C09_block1_addresses_partial : forall B A beg b b',
   (PoolOne.addr1 B A beg b + B <= PoolOne.addr1 B A beg b' \/ PoolOne.addr1 B A beg b' + B <= PoolOne.addr1 B A beg b).
 Proof. exact PoolOne.one_block_addresses. Qed.
 Print Assumptions C09_block1_addresses_partial.
+
+(* (3') END TO END over the FULL alphabet - Allocate, Deallocate, MergeFrom, DeallocateAll, Swap, move assignment AND DeallocateIf
+   (arbitrary filters): after every such history, every block that is handed out is aligned, inside the still-owned manager
+   block of its buffer, disjoint from every other live block of either pool and from the bookkeeping bytes of every owned
+   buffer, and GetAllocateCount = number of live blocks.  (C09_end_to_end is the same statement for the alphabet without
+   DeallocateIf; both follow from the state-level lemma PoolAddr.end_to_end_state and the invariant.) *)
+Theorem C09_end_to_end_full : forall C B A CF uc beg ops,
+  PoolArith.legal C B A ->
+  let size := Gen_MemPool.pvGetBufferSize C B A in
+  let w := PoolCompl.frun C CF uc ops in
+  (forall b, PoolArith.begin_ok A size (beg b)) ->
+  (forall b b', b <> b' -> ~ In b (PoolConc.returned w) -> ~ In b' (PoolConc.returned w) ->
+     beg b + size <= beg b' \/ beg b' + size <= beg b) ->
+  (forall p, PoolConc.acount (PoolConc.getp w p) = PoolConc.lenz (PoolConc.live (PoolConc.getp w p))) /\
+  forall p bk, In bk (PoolConc.live (PoolConc.getp w p)) ->
+    let a := PoolAddr.addr_of C B A beg bk in
+    a mod A = 0 /\ beg (fst bk) <= a /\ a + B <= beg (fst bk) + size /\ ~ In (fst bk) (PoolConc.returned w) /\
+    (forall p' bk', In bk' (PoolConc.live (PoolConc.getp w p')) -> bk' <> bk ->
+       let a' := PoolAddr.addr_of C B A beg bk' in a + B <= a' \/ a' + B <= a) /\
+    (forall b' q len, ~ In b' (PoolConc.returned w) -> In (q, len) (PoolAddr.meta_of C B A beg b') -> q + len <= a \/ a + B <= q).
+Proof. exact PoolAddr.end_to_end_full. Qed.
+Print Assumptions C09_end_to_end_full.
